@@ -2,7 +2,7 @@
 ID = "C21"
 FAMILY = "announce"
 RULE = ("timed sequences of 5..60 ANNOUNCE messages from 1..3 peers given to the real Node::handle_announce under the virtual "
-        "clock: real manifests issued by a second node, real PoW at difficulty 0 or 4; each message is valid or fails exactly "
+        "clock: real manifests issued by a second node, real PoW at difficulty 0, 4, 5, 6, 7 or 9 (a bad proof has exactly one zero bit too few, counted by the harness, not by the node); each message is valid or fails exactly "
         "one admission check (names another peer, empty URI, PoW one step off, version 2, undecodable manifest, other chunk id, "
         "fewer shards than the threshold, expired manifest, an assigned shard the manifest lacks); gaps of 0, 1, interval-1, "
         "interval, window-1, window, 119..121, 179..181 s so that throttle, failure window and lock-out edges are hit; throttle "
@@ -22,7 +22,7 @@ def gen_seq(rng, n):
     bl = rng.choice([1, 2, 3, 4])
     bw = rng.choice([mi, mi + 1, 2 * mi, 60, 120, 180])
     bw = max(bw, mi)
-    d = rng.choice([0, 4])
+    d = rng.choice([0, 4, 5, 6, 7, 9])
     peers = rng.choice([1, 1, 2, 3])
     ev = []
     for _ in range(n):
